@@ -114,6 +114,27 @@ def Hash.parseFromB58 (s : Bytes) : Option Hash :=
   | none => none
   | some d => Hash.unmarshal d
 
+/-- `(*Hash).UnmarshalVT(b)` on a receiver that already holds `recv`: the generated decoder MERGES —
+a field that occurs in `b` replaces the receiver's value, a field that does not occur keeps it
+(proto3 omits zero / empty fields, so a used receiver keeps its old type or digest). -/
+def Hash.unmarshalInto (recv : Hash) (b : Bytes) : Option Hash :=
+  match PW.decode hashSchema b with
+  | .error _ => none
+  | .ok r => some { type := if r.has 1 then PW.toInt32 (r.lastVarint 1) else recv.type,
+                    digest := if r.has 2 then r.lastBytes 2 else recv.digest }
+
+/-- `(*Hash).ParseFromB58(s)` on a receiver holding `recv`, BEFORE the fix: base58 decode, then the
+merging `UnmarshalVT`. -/
+def Hash.parseFromB58IntoPreFix (recv : Hash) (s : Bytes) : Option Hash :=
+  match B58.decode s with
+  | none => none
+  | some d => Hash.unmarshalInto recv d
+
+/-- `(*Hash).ParseFromB58(s)` on a receiver holding `recv` (fixed code: `h.Reset()` before
+`UnmarshalVT`): the result does not depend on what the receiver held. -/
+def Hash.parseFromB58Into (_recv : Hash) (s : Bytes) : Option Hash :=
+  Hash.parseFromB58IntoPreFix ⟨0, []⟩ s
+
 /-- `Hash.VerifyData` given the digest function `sum` (`none` = unknown type). -/
 def Hash.verifyData (sum : Int → Bytes → Option Bytes) (h : Hash) (data : Bytes) : Bool :=
   match sum h.type data with
